@@ -7,7 +7,7 @@ PID = "C20"
 CATS = ["Float", "Int", "Shaped", "Num", "Bool", "Float32", "Inexact", "Integer", {"user": ["float32", "int8"]}, {"user": ["float16"]}]
 DIMS = ["", "a", "a b", "_ b", "... b", "*v", "a *v b", "#a 3", "a+1", "_", "...", "2 3", "d=a b", "*#v c", "?n"]
 ARRS = ["np", "np", "any", "jax", "union", "dup1", "dup2"]
-ROUTES = ["pickle", "cloudpickle", "copy", "deepcopy", "pickle-sub", "cloudpickle-sub", "pickle-reload-after-use"]
+ROUTES = ["pickle", "cloudpickle", "copy", "deepcopy", "pickle-sub", "cloudpickle-sub", "pickle-reload-after-use", "resend3"]   # resend3: Coq `resend 3` (props/C20.v)
 
 
 def write_support(d):
